@@ -12,7 +12,7 @@
  */
 #include "types.h"
 
-/*@unit {'name':'c03_setglyph', 'props':['DEV_seglife'], 'final_props':['C03','C02'], 'entry':'h_setglyph', 'enforce':'Slot_setGlyph',
+/*@unit {'name':'c03_setglyph', 'props':['C03','C02'], 'entry':'h_setglyph', 'enforce':'Slot_setGlyph',
   'replace':['GlyphCache_glyphSafe','GlyphFace_attr'], 'kind':'proof', 'unwind':4, 'defines':['SETGLYPH'],
   'replay':'seglife', 'witness_defines':[], 'witness_vars':['w_gid','w_ng','w_attr'],
   'assumptions':['GlyphCache::glyphSafe(gid) is NULL for gid >= numGlyphs and otherwise a function of gid that yields NULL or a valid GlyphFace (unit c02_gcc_glyphsafe)',
@@ -20,40 +20,41 @@
                  'a non-NULL theGlyph argument is glyphSafe(glyphid) (call sites Segment::appendSlot and Segment::addLineEnd; all other callers pass NULL)',
                  'clause 1 only: the pseudo-glyph attribute of the glyph names a real glyph (value < numGlyphs) - the premise of the C03 statement'],
   'claims':'Slot::setGlyph for any glyph id, any number of glyphs, any attribute values: the id that gr_slot_gid reports afterwards (real body of gr_slot_gid run on the slot) is below numGlyphs whenever the requested id is and the pseudo-glyph attribute names a real glyph; m_glyphid is the requested id; the real-glyph id is the attribute or 0, 0 for a missing glyph and for attributes above numGlyphs; the advance is that of the real glyph (of the glyph itself when there is none) with y = 0, and (0,0) for a missing glyph; pass bits are only cleared, never set; nothing but glyph id, real glyph id, bidi class, advance of this slot and the pass bits is written'}@*/
-/*@unit {'name':'c03_setglyph_strict', 'props':['DEV_seglife_strict'], 'final_props':['C03'], 'entry':'h_setglyph', 'enforce':'Slot_setGlyph',
+/*@unit {'name':'c03_setglyph_strict', 'props':['PARKED_seglife'], 'tiers':['parked'], 'entry':'h_setglyph', 'enforce':'Slot_setGlyph',
   'replace':['GlyphCache_glyphSafe','GlyphFace_attr'], 'kind':'proof', 'unwind':4, 'defines':['SETGLYPH','STRICT'],
   'replay':'seglife', 'witness_defines':[], 'witness_vars':['w_gid','w_ng','w_attr'],
   'assumptions':['as c03_setglyph, without the premise on the pseudo-glyph attribute'],
   'claims':'(strict variant: the clamp alone protects the client) Slot::setGlyph accepts a real-glyph id from the pseudo-glyph attribute only when it is below numGlyphs, so that gr_slot_gid < numGlyphs whenever the requested id is, whatever the attribute says. EXPECTED TO FAIL on the current tree: the clamp tests `>` and lets attribute == numGlyphs through'}@*/
 
-/*@unit {'name':'c04_link_ltr', 'props':['DEV_seglife'], 'final_props':['C04'], 'entry':'h_linkq', 'kind':'bounded', 'defines_quick':['NSLOTS=4','LINKQ','RTL=0'], 'defines_thorough':['NSLOTS=5','LINKQ','RTL=0'],
-  'unwind_quick':7, 'unwind_thorough':8, 'bound':'pool of 4 (quick) / 5 (thorough) slots, streams of 1..4 (1..5) slots, any parent links (not only forests), any sibling links on attached slots and on slots outside the stream, left-to-right segment (m_dir even)',
+/*@unit {'name':'c04_link_ltr', 'props':['C04'], 'entry':'h_linkq', 'kind':'bounded', 'defines_quick':['NSLOTS=4','LINKQ','RTL=0'], 'defines_thorough':['NSLOTS=5','LINKQ','RTL=0'],
+  'unwind_quick':7, 'unwind_thorough':8, 'bound':'pool of 4 (quick) / 5 (thorough) slots, streams of 1..4 (quick) / 1..5 (thorough) slots, every base / attached pattern (one run per pattern), any sibling links on attached slots and on slots outside the stream, left-to-right segment (m_dir even)',
   'assumptions':['symmetry reduction: the stream is laid out in pool order (slot 0, 1, .., n-1); slots are interchangeable because linkClusters never compares addresses for order - arbitrary layouts over 3 slots are covered by the thorough-tier unit c04_link_clusters',
+                 'an attached slot names the following stream slot as its parent (concrete, so that the loops run on concrete links): linkClusters only ever asks isBase()',
                  'on entry no base carries a sibling link: linkClusters runs once, from Segment::finalise, and the rule-time mutators keep bases unlinked (units c04_attach_to, c04_free_slot)',
                  'first and last are non-NULL ends of the stream (the guard at the top of Segment::finalise)'],
   'claims':'Segment::linkClusters(first, last), left-to-right: following the sibling link from the first base of the stream visits every base exactly once, in stream order, and ends with NULL; a stream without bases is left alone; no parent or child link and no sibling link of an attached slot is written, slots outside the stream are untouched'}@*/
-/*@unit {'name':'c04_link_rtl', 'props':['DEV_seglife'], 'final_props':['C04'], 'entry':'h_linkq', 'kind':'bounded', 'defines_quick':['NSLOTS=4','LINKQ','RTL=1'], 'defines_thorough':['NSLOTS=5','LINKQ','RTL=1'],
-  'unwind_quick':7, 'unwind_thorough':8, 'bound':'pool of 4 (quick) / 5 (thorough) slots, streams of 1..4 (1..5) slots, any parent links (not only forests), any sibling links on attached slots and on slots outside the stream, right-to-left segment (m_dir odd)',
+/*@unit {'name':'c04_link_rtl', 'props':['C04'], 'entry':'h_linkq', 'kind':'bounded', 'defines_quick':['NSLOTS=4','LINKQ','RTL=1'], 'defines_thorough':['NSLOTS=5','LINKQ','RTL=1'],
+  'unwind_quick':7, 'unwind_thorough':8, 'bound':'pool of 4 (quick) / 5 (thorough) slots, streams of 1..4 (quick) / 1..5 (thorough) slots, every base / attached pattern (one run per pattern), any sibling links on attached slots and on slots outside the stream, right-to-left segment (m_dir odd)',
   'assumptions':['as c04_link_ltr'],
   'claims':'Segment::linkClusters(first, last), right-to-left: following the sibling link from the LAST base of the stream visits every base exactly once, in reverse stream order, and ends with NULL at the first base; no parent or child link and no sibling link of an attached slot is written, slots outside the stream are untouched'}@*/
 
-/*@unit {'name':'c19_seg_destroy_b1', 'props':['DEV_seglife'], 'final_props':['C19','C02','C16'], 'entry':'h_destroy', 'kind':'bounded', 'unwind':5, 'defines':['DTOR','BUF=1','KS=2','KJ=2','NUSER=1'], 'checks':['--memory-leak-check'],
+/*@unit {'name':'c19_seg_destroy_b1', 'props':['C19','C02','C16'], 'entry':'h_destroy', 'kind':'bounded', 'unwind':5, 'defines':['DTOR','BUF=1','KS=2','KJ=2','NUSER=1'], 'checks':['--memory-leak-check'],
   'bound':'slot blocks of 1 slot with 1 user attribute; 0..2 newSlot calls and 0..2 newJustify calls (each allocates a block, so each rope grows to 2 entries through one reallocation); 1 justification level; 2 char-infos; with or without a collision array; every calloc may fail',
   'assumptions':['realloc(p, n) is malloc(n) + copy of the old elements + free(p), or NULL (Vector::reserve then aborts)',
                  'delete-expressions are modelled by spec code: `delete p` = destructor body, then the destructors of the rope members (extracted ~Vector), then operator delete = free (CLASS_NEW_DELETE); `delete[] m_charinfo` = free (CharInfo has a trivial destructor, no array cookie)',
                  'the member m_feats (Vector<Features>) is not modelled: its release is not covered here',
                  'the segment is in the state its constructor leaves: empty ropes, empty free lists (the constructor itself is not extracted)'],
   'claims':'gr_seg_destroy after any admissible history of Segment::newSlot / Segment::newJustify calls (real bodies, real Vector<T*>::push_back / reserve): every block those calls obtained and kept (slot blocks, attribute blocks, justify blocks), every rope buffer, the char-info array, the collision array and the segment itself are freed exactly once; nothing the segment does not own (face, silf) is freed; blocks of a failed newSlot are freed on the spot; no allocation is left (memory-leak check) and nothing is freed twice'}@*/
-/*@unit {'name':'c19_seg_destroy_b2', 'props':['DEV_seglife'], 'final_props':['C19','C02','C16'], 'entry':'h_destroy', 'kind':'bounded', 'unwind':5, 'defines':['DTOR','BUF=2','KS=3','KJ=3','NUSER=0'], 'checks':['--memory-leak-check'],
+/*@unit {'name':'c19_seg_destroy_b2', 'props':['C19','C02','C16'], 'entry':'h_destroy', 'kind':'bounded', 'unwind':5, 'defines':['DTOR','BUF=2','KS=3','KJ=3','NUSER=0'], 'checks':['--memory-leak-check'],
   'bound':'slot blocks of 2 slots without user attributes; 0..3 newSlot calls and 0..3 newJustify calls (the third one allocates the second block after the free list ran empty); 1 justification level; 2 char-infos; with or without a collision array; every calloc may fail',
   'assumptions':['as c19_seg_destroy_b1'],
   'claims':'as c19_seg_destroy_b1 for blocks of two slots: the free-list pops between the two block allocations do not disturb the ropes; all blocks are freed exactly once by gr_seg_destroy'}@*/
 
-/*@unit {'name':'c03_api_slot', 'props':['DEV_seglife'], 'final_props':['C03','C04','C02'], 'entry':'h_api_slot', 'kind':'proof', 'unwind':3, 'defines':['API'],
+/*@unit {'name':'c03_api_slot', 'props':['C03','C04','C02'], 'entry':'h_api_slot', 'kind':'proof', 'unwind':3, 'defines':['API'],
   'claims':'the gr_slot_* observation points return exactly the slot fields the internal invariants speak about and write nothing: next/prev_in_segment = m_next/m_prev, attached_to = m_parent, first_attachment = m_child, next_sibling_attachment = m_sibling, index = m_index, before/after/original = m_before/m_after/m_original, gid = the real glyph id when non-zero else the glyph id, origin/advance (no font) = the stored floats, can_insert_before = !(flags & INSERTED)'}@*/
-/*@unit {'name':'c03_api_seg', 'props':['DEV_seglife'], 'final_props':['C03','C02'], 'entry':'h_api_seg', 'kind':'proof', 'unwind':3, 'defines':['API'],
+/*@unit {'name':'c03_api_seg', 'props':['C03','C02'], 'entry':'h_api_seg', 'kind':'proof', 'unwind':3, 'defines':['API'],
   'claims':'the gr_seg_* observation points: n_slots = m_numGlyphs, first/last_slot = m_first/m_last, n_cinfo = m_numCharinfo, gr_seg_cinfo(i) = &m_charinfo[i] for i < m_numCharinfo and NULL otherwise (the exact-size char-info array is never indexed out of bounds), advance_X/Y the stored floats; nothing is written'}@*/
-/*@unit {'name':'c03_api_cinfo', 'props':['DEV_seglife'], 'final_props':['C02','C05'], 'entry':'h_api_cinfo', 'kind':'proof', 'unwind':3, 'defines':['API'],
+/*@unit {'name':'c03_api_cinfo', 'props':['C02','C05'], 'entry':'h_api_cinfo', 'kind':'proof', 'unwind':3, 'defines':['API'],
   'claims':'the gr_cinfo_* observation points return exactly m_char, m_break, m_before, m_after, m_base of the char-info and write nothing'}@*/
 
 /*@include slots.tc@*/
